@@ -863,6 +863,7 @@ def check_C03(rep):
 
 def check_C04(rep):
     common_stage(rep)
+    FX.run_fixed(rep, "custom_lexer.cpp", "g++", "-O1", "lexeme-of-any-length-is-not-delivered-as-one-longest-match")
     run = h2_stage(rep)
     if run is None: return rep
     dfa_property(rep, run, "termset")
@@ -1041,6 +1042,7 @@ def known_D8(rep):
 
 def check_C06(rep):
     common_stage(rep)
+    FX.run_fixed(rep, "custom_lexer.cpp", "g++", "-O1", "parse-of-a-very-long-lexeme-does-not-terminate-or-goes-wrong")
     run = h1_stage(rep)
     nontriv = set(); samples = []
     if run is not None:
